@@ -5,7 +5,7 @@ the argument substitution of process_ast_node on the retrieval lines, the bookin
 three back ends) and coq/Model/CppLex.v (the value of a C++ literal).
 Tie: correspondence of the extracted model with the real pipeline: a generated constant is planted at one
 position of a query (method argument, comparison operand, selected value, bank name, attribute name,
-column name, dict key, tree name), the query is translated by the real executor, and the line the model
+column name, dict key, tree name, second argument of a three-parameter user C++ function), the query is translated by the real executor, and the line the model
 predicts must occur in the written source file (same exception class when the constant is refused).
 Search / independent oracle: the emitted text after the fixed marker of the position is lexed with the
 extracted Coq lexer and the literal's value is compared with the Python constant (strings byte for byte,
@@ -29,7 +29,7 @@ TRUSTED = [
     "coq/Model/CppLex.v as the definition of the value of a C++ literal (ISO C++ [lex.icon] [lex.fcon] [lex.bool] [lex.string] [lex.ppnumber]; LP64; "
     "source and execution character set byte-transparent UTF-8; no trigraphs; suffixes, octal/hex integers, \\u \\U refused)",
     "hand model coq/Model/Consts.v of visit_Constant, cpp_string_literal, cpp_ast.replace_whole_words on the built-in retrieval / getAttribute lines, "
-    "book_*_ttree.emit and *_ttree_fill.emit",
+    "book_*_ttree.emit and *_ttree_fill.emit, a three-parameter add_cpp_function code line",
     "library facts not proved: Python's repr(float) prints a decimal that rounds back to the same double; a C++ compiler converts a decimal floating literal to the nearest double "
     "(the check's float oracle re-does the second conversion with exact rational arithmetic)",
     "extraction (ExtrOcamlBasic, ExtrOcamlString) + ocaml/main.ml driver + S-expression codec tools/fv/sexp.py",
@@ -47,17 +47,29 @@ MAIN = {"atlas": "query.cxx", "cms_aod": "Analyzer.cc", "cms_miniaod": "Analyzer
 HEADER = {"atlas": "query.h", "cms_aod": "Analyzer.cc", "cms_miniaod": "Analyzer.cc"}
 EXPR_POS = ("arg", "cmp", "select")
 SUBST_POS = ("bank", "attr")
+# a user C++ function (add_cpp_function metadata) with three parameters; the constant is passed for the second one
+USER_PARAMS = [("jet", "label", "bin"), ("obj", "name", "idx"), ("p", "s", "n"), ("particle", "tag", "pt")]  # = Consts.user_params
+USER_POS = tuple(f"arg2.{k}" for k in range(len(USER_PARAMS)))
+LITERAL_ARG_POS = ("attr",) + USER_POS  # a non-string constant here is an ordinary literal argument
+
+
+def user_md(pos: str):
+    p0, p1, p2 = USER_PARAMS[int(pos.split(".")[1])]
+    return [{"metadata_type": "add_cpp_function", "name": "fill_label", "code": [f"double result = g_labelled_value(*{p0}, {p1}, {p2});"],
+             "result": "result", "include_files": [], "arguments": [p0, p1, p2], "return_type": "double"}]
 NAME_POS = ("col", "col1", "dictkey", "tree")
 BACKENDS = ("atlas", "cms_aod", "cms_miniaod")
 
 
 def position_class(pos: str) -> str:
-    return "expr" if pos in EXPR_POS else ("subst" if pos in SUBST_POS else "name")
+    return "expr" if pos in EXPR_POS else ("subst" if (pos in SUBST_POS or pos in USER_POS) else "name")
 
 
 def query_src(backend: str, pos: str) -> str:
     c, b, _ = COLL[backend]
     P = repr(PH)
+    if pos in USER_POS:
+        return f'ds.Select(lambda e: e.{c}("{b}").Select(lambda j: fill_label(j, {P}, 3))).AsROOTTTree("f.root", "t", ["c"])'
     return {
         "arg": f'ds.Select(lambda e: e.{c}("{b}").Select(lambda j: j.calc({P}))).AsROOTTTree("f.root", "t", ["c"])',
         "cmp": f'ds.Select(lambda e: e.{c}("{b}").Where(lambda j: j.pt() > {P}).Select(lambda j: j.eta())).AsROOTTTree("f.root", "t", ["c"])',
@@ -75,7 +87,7 @@ def run_impl(backend: str, pos: str, value: Any):
     """Plant `value` at `pos`, translate with the real executor.  ("ok", main text, header text, treename) | ("error", class, msg)"""
     import func_adl_xAOD.common.cpp_vars as cv
 
-    a = impl.query_ast(query_src(backend, pos), None)
+    a = impl.query_ast(query_src(backend, pos), user_md(pos) if pos in USER_POS else None)
     n = 0
     for node in ast.walk(a):
         if isinstance(node, ast.Constant) and type(node.value) is str and node.value == PH:
@@ -158,6 +170,13 @@ class Calib:
                     self.problems.append(f"calibration {b}/{pos}: column variable not found")
                     continue
                 self.var[(b, pos)] = m[0]
+        for b in BACKENDS:
+            r = run_impl(b, USER_POS[0], "m")
+            m = re.findall(r"g_labelled_value\(\*(i_obj\d+), ", r[1]) if r[0] == "ok" else []
+            if len(m) == 1:
+                self.obj[b + "/arg2"] = m[0]
+            else:
+                self.problems.append(f"calibration {b}/arg2: object name not found")
         r = run_impl("atlas", "attr", "m")
         m = re.findall(r"auto result = (i_obj\d+)->getAttribute<float>\(", r[1]) if r[0] == "ok" else []
         if len(m) == 1:
@@ -179,6 +198,8 @@ def markers(backend: str, pos: str, calib: Calib) -> List[Tuple[str, str]]:
                 "cms_miniaod": [("edm::InputTag(", "))")]}[backend]
     if pos == "attr":
         return [("->getAttribute<float>(", ");")]
+    if pos in USER_POS:
+        return [("g_labelled_value(*" + calib.obj.get(backend + "/arg2", "i_obj1") + ", ", ", 3);")]
     if pos in ("col", "col1", "dictkey"):
         return [("myTree->Branch(", ", &")]
     if pos == "tree":
@@ -221,7 +242,7 @@ def oracle(model: core.Model, backend: str, pos: str, v: Any, r, calib: Calib) -
     """None if the property holds on this run, else (why-class, description)."""
     name_like = position_class(pos) != "expr"
     # an attribute argument that is not a string is an ordinary literal argument
-    must_reject = (not representable(v)) or (name_like and pos != "attr" and type(v) is not str)
+    must_reject = (not representable(v)) or (name_like and pos not in LITERAL_ARG_POS and type(v) is not str)
     if r[0] == "error":
         if must_reject:
             return None
@@ -277,6 +298,12 @@ def correspond(model: core.Model, backend: str, pos: str, v: Any, r, calib: Cali
             if not re.search(r"^\s*" + ty + r"\s+" + re.escape(var) + r";", r[2], flags=re.M):
                 return f"model declares {ty} {var}; not found in the header"
         return None
+    if pos in USER_POS:
+        p0, p1, p2 = USER_PARAMS[int(pos.split(".")[1])]
+        mr = model.call("c18.user_call", [p0, p1, p2, calib.obj.get(backend + "/arg2", "i_obj1"), w, "3"])
+        if mr[0] == "error":
+            return None if (r[0] == "error" and r[1] == mr[1]) else f"model raises {mr[1]}, implementation: {r[:2]}"
+        return None if (r[0] == "ok" and mr[1] in r[1]) else f"model line {mr} not in the generated file"
     if type(v) is not str and pos == "attr":
         mr = model.call("c18.render", w)
         if mr[0] == "error":
@@ -361,7 +388,25 @@ def gen_number(rng: random.Random) -> Any:
     return rng.choice(OTHERS)
 
 
+def gen_user_case(rng: random.Random) -> Tuple[str, str, Any]:
+    """String constant for the second parameter of a three-parameter user function; the other parameters' names
+    (and its own) are planted in it, mostly as whole words, sometimes glued to other word characters."""
+    b = rng.choice(BACKENDS)
+    k = rng.randrange(len(USER_PARAMS))
+    if rng.random() < 0.06:
+        return (b, USER_POS[k], gen_number(rng))
+    words = list(USER_PARAMS[k]) + ["result", "3"]
+    parts = [gen_string(rng)] if rng.random() < 0.7 else []
+    for _ in range(rng.randint(1, 3)):
+        w = rng.choice(words[:3]) if rng.random() < 0.85 else rng.choice(words)
+        sep = rng.choice([" ", " ", ",", "(", "-", "\"", "\\", "", "x", "_"])
+        parts.insert(rng.randint(0, len(parts)), sep + w + rng.choice([" ", "", ")", "\"", "1", ".", "\n"]))
+    return (b, USER_POS[k], "".join(parts))
+
+
 def gen_case(rng: random.Random) -> Tuple[str, str, Any]:
+    if rng.random() < 0.15:
+        return gen_user_case(rng)
     b = rng.choice(BACKENDS)
     u = rng.random()
     if u < 0.45:
@@ -389,6 +434,11 @@ def exhaustive_cases(full: bool) -> List[Tuple[str, str, Any]]:
     for b, pos in combos:
         for s in strs:
             out.append((b, pos, s))
+    for b in BACKENDS:
+        for k, ps in enumerate(USER_PARAMS):
+            for w in ps:
+                for s in (w, f"a {w}", f"{w} b", f"a {w} b", f"x{w}", f"{w}_", f'"{w}"', f"{ps[2]} {ps[0]} {ps[1]}"):
+                    out.append((b, USER_POS[k], s))
     for b in BACKENDS:
         for z in INT_EDGES:
             for pos in EXPR_POS:
@@ -467,8 +517,9 @@ def check(tier: str, seed: int, t0: float, build: core.BuildStatus) -> int:
     distinct = set()
     seen_keys: Dict[str, int] = {}
     budget = 100 if tier == "quick" else 800
-    for b, pos, v in cases:
-        if time.time() - t0 > budget:
+    t_loop = time.time()  # the budget bounds the generated stream only, never the build
+    for i_case, (b, pos, v) in enumerate(cases):
+        if time.time() - t_loop > budget and i_case >= n_corpus + len(exh):
             oc.extra["stopped_early_after_s"] = budget
             break
         if model is None:
